@@ -151,13 +151,14 @@ inline bool is_bu_toggle(const Op &o) { return o.k == VBU || o.k == EBU || o.k =
 // ------------------------------------------------------------------------------------------- dispatch
 struct PropChecks {
     std::string prop;
-    bool c01 = false, c02 = false, c03 = false, c17 = false, c12 = false, c05 = false, c08 = false, c09 = false, c10 = false;
+    bool c01 = false, c02 = false, c03 = false, c17 = false, c12 = false, c05 = false, c08 = false, c09 = false, c10 = false, c11 = false;
     explicit PropChecks(const std::string &p) : prop(p) {
         c01 = p == "C01"; c02 = p == "C02"; c03 = p == "C03"; c17 = p == "C17"; c12 = p == "C12";
-        c05 = p == "C05"; c08 = p == "C08"; c09 = p == "C09"; c10 = p == "C10";
+        c05 = p == "C05"; c08 = p == "C08"; c09 = p == "C09"; c10 = p == "C10"; c11 = p == "C11";
     }
 
     std::vector<Op> menu(const Sys &s, const Bf &bf, unsigned alpha, const Caps &caps) {
+        if (c11 && (alpha & A_ADDCV)) return menu_c11(s, bf, caps);  // A_ADDCV doubles as "probe alphabet" switch for C11
         auto ops = mc::menu(s, bf, alpha, caps);
         if (c12) {
             // add_face(vertices) may reuse any of several parallel live edges; which one is unspecified and
@@ -180,7 +181,7 @@ struct PropChecks {
 
     // Executes o on s (and labels new entities), checking the transition-level rules of the selected property.
     void transition(Sys &s, const Op &o, Viols &vs, Stats &st, const std::string &seed, const Config &cfg, const Hist &pre_hist) {
-        const bool need_abs = c02 || c03 || c17 || c12;
+        const bool need_abs = c02 || c03 || c17 || c12 || c11;
         std::unique_ptr<Sys> twin;
         if (c12) {
             // the twin runs the same history with every incidence kind permanently enabled
@@ -203,19 +204,92 @@ struct PropChecks {
             lo = to_labels(s, o);
         }
         if (c17 && is_swap) { sv_pre = slot_view(s); key_pre = sys_key(s); }
+        int c11_expect = -1;  // -1 n/a, 0 must reject, 1 must accept, 2 may accept (as a set) or reject, 3 dedup (existing edge)
+        std::vector<int> c11_existing;
+        if (c11 && (o.k == ADD_FACE_HE || o.k == ADD_CELL_HF || o.k == ADD_EDGE)) {
+            Bf bf(s.m);
+            key_pre = sys_key(s);
+            std::vector<int> l;
+            for (int i = 1; i < o.n; ++i) l.push_back(o.a[i]);
+            if (o.k == ADD_EDGE) {
+                for (int e = 0; e < bf.ne; ++e) if (!bf.edel[e] && ((bf.ev[e][0] == o.a[0] && bf.ev[e][1] == o.a[1]) || (bf.ev[e][0] == o.a[1] && bf.ev[e][1] == o.a[0]))) c11_existing.push_back(e);
+                c11_expect = (!o.a[2] && !c11_existing.empty()) ? 3 : 1;
+            } else if (o.k == ADD_FACE_HE) {
+                bool ok = closed_loop(bf, l);
+#if defined(MC_TET)
+                ok = ok && l.size() == 3;
+#elif defined(MC_HEX)
+                ok = ok && l.size() == 4;
+#endif
+                c11_expect = o.a[0] ? (ok ? 1 : 0) : -1;
+                if (!o.a[0]) {
+#if defined(MC_TET)
+                    if (l.size() != 3) c11_expect = 0;
+#elif defined(MC_HEX)
+                    if (l.size() != 4) c11_expect = 0;
+#endif
+                }
+            } else {
+                bool ok = closed_surface(bf, l);
+                bool shape = true;
+#if defined(MC_TET)
+                shape = l.size() == 4; for (int hf : l) shape = shape && bf.hfhe[hf].size() == 3;
+#elif defined(MC_HEX)
+                shape = l.size() == 6; for (int hf : l) shape = shape && bf.hfhe[hf].size() == 4;
+#endif
+                for (int hf : l) if (!bf.cells_of_hf[hf].empty()) ok = ok && true;  // halffaces already in a cell: the check does not refuse them (documented)
+                c11_expect = !shape ? 0 : (o.a[0] ? (ok ? 1 : 0) : -1);
+#if defined(MC_HEX)
+                if (c11_expect == 1) c11_expect = 2;
+#endif
+            }
+        }
         g_phase = "exec";
         Viols dv;
-        exec_op(s, o, c03 ? &dv : nullptr);
+        OpResult opres = exec_op(s, o, c03 ? &dv : nullptr);
         s.label_new(c03 ? &dv : nullptr);
         g_phase = "post-check";
         if (c03) for (auto &v : dv) vs.push_back({"c03:" + v.rule, v.detail});
         if (need_abs) {
             Viols ev;
             Abs post = extract(s, ev);
-            const char *pfx = c02 ? "c02:" : c03 ? "c03:label-" : c12 ? "c12:" : "c17:";
+            const char *pfx = c02 ? "c02:" : c03 ? "c03:label-" : c12 ? "c12:" : c11 ? "c11:" : "c17:";
             if (!ev.empty()) { vs.push_back({pfx + ev[0].rule, ev[0].detail}); return; }
             Abs exp = pre;
             Viols av;
+            if (c11 && c11_expect >= 0) {
+                st.hit("c11-probes");
+                if (st.outcomes["c11-verdicts"].size() < 16) st.outcomes["c11-verdicts"].insert(std::string(OPNAMES[o.k]) + ":" + std::to_string(c11_expect) + ":" + (opres.ret >= 0 ? "acc" : "rej"));
+                bool accepted = opres.ret >= 0;
+                if (c11_expect == 0 || c11_expect == 3 || (c11_expect == 2 && !accepted)) {
+                    if (c11_expect == 0 && accepted) VIOL(vs, std::string("c11:accepted-invalid:") + OPNAMES[o.k], o.str() << " returned " << opres.ret << " although the arguments do not form a valid " << (o.k == ADD_FACE_HE ? "closed loop" : "closed surface"));
+                    if (c11_expect == 3 && !std::count(c11_existing.begin(), c11_existing.end(), opres.ret)) VIOL(vs, "c11:dedup:wrong-edge", o.str() << " returned " << opres.ret << ", live edges between the vertices: " << vstr(c11_existing));
+                    if (sys_key(s) != key_pre) VIOL(vs, std::string("c11:rejected-but-changed:") + OPNAMES[o.k], o.str() << " was rejected / deduplicated but the mesh state changed");
+                    return;
+                }
+                if (!accepted) { VIOL(vs, std::string("c11:rejected-valid:") + OPNAMES[o.k], o.str() << " returned the invalid handle although the arguments are valid"); return; }
+                size_t n = o.k == ADD_EDGE ? s.m.n_edges() : o.k == ADD_FACE_HE ? s.m.n_faces() : s.m.n_cells();
+                if ((size_t)opres.ret + 1 != n) VIOL(vs, std::string("c11:not-appended:") + OPNAMES[o.k], o.str() << " returned " << opres.ret << " but the entity count is " << n);
+                if (c11_expect == 2) {  // hex: stored list is a re-ordering of the given one
+                    auto got = idxs(s.m.cell(CellHandle(opres.ret)).halffaces());
+                    std::vector<int> l;
+                    for (int i = 1; i < o.n; ++i) l.push_back(o.a[i]);
+                    if (sorted(got) != sorted(l)) VIOL(vs, "c11:hex-reorder-changed-set", o.str() << " stored " << vstr(got));
+                    // expected abstraction: take the stored order
+                    auto it = post.Cs.find(pre.nextC());
+                    if (it != post.Cs.end()) { lo.a.resize(1); for (int x : it->second.hfs) lo.a.push_back(x); }
+                }
+            }
+#if defined(MC_HEX)
+            // hex kernel: a topology-checked add_cell may store a re-ordering of the given list (the order itself is C16's business)
+            if (o.k == ADD_CELL_HF && o.a[0] && !(c11 && c11_expect >= 0)) {
+                auto it = post.Cs.find(pre.nextC());
+                if (it != post.Cs.end() && !it->second.del) {
+                    std::vector<int> given(lo.a.begin() + 1, lo.a.end());
+                    if (sorted(given) == sorted(it->second.hfs)) { lo.a.resize(1); for (int x : it->second.hfs) lo.a.push_back(x); }
+                }
+            }
+#endif
             abs_apply(exp, lo, &post, av);
             for (auto &v : av) vs.push_back(v);
             abs_compare(exp, post, (std::string(pfx) + "iso:").c_str(), vs);
